@@ -3,7 +3,14 @@
 Surface case
   {'box': None | {'family','abc':[a,b,c,al,be,ga],'rot': None|[axis,angle]},
    'a1vect': [3 | 4 numbers], 'a2vect': [...], 'a1v3': [3], 'a2v3': [3]       (3-index form kept for the oracle)
-   'n1','n2', 'dup': bool, 'shuffle': int|None, 'kind': 'fourier'|'random', 'E': n1 x n2 table, 'D': table|None}
+   'n1','n2', 'dup': bool, 'shuffle': int|None, 'kind': 'fourier'|'random', 'E': n1 x n2 table, 'D': table|None,
+   'lk': k, 'ej': j}
+
+Scales.  Every case carries an overall length scale 10^lk (k = 0 in about 40 % of the cases, otherwise -12..+4: the
+cell edges / Cartesian shift vectors, positions, x grids, disregistries, Burgers vectors, plane separations are
+multiplied by it when the oracle builds the objects - 1e-10 is a cell given in metres, atomman's SI working units) and an
+independent energy-per-area scale 10^ej (j = 0 in about 40 %, otherwise -8..+8: E_gsf values; K_tensor and tau by
+10^(j-k), beta by 10^j, alpha by 10^(j-2k)).  The tables, lengths ... in the case stay the unscaled ones.
 """
 import functools
 import math
@@ -25,13 +32,34 @@ _theta = st.one_of(st.just(90.0), gens.nice(40.0, 140.0, 2))
 _len = gens.nice(1.5, 8.0, 3)
 _rot = gens.rotations(min_angle=1.0)
 _sym_beta = gens.sym3(0.5)
+# exponents of the length scale and of the energy-per-area scale (0 first: shrinks to the unscaled problem)
+_lk = st.sampled_from([0] * 12 + [-12, -11, -10, -10, -10, -9, -8, -7, -6, -5, -4, -3, -2, -1, 1, 2, 3, 4])
+_ej = st.sampled_from([0] * 11 + [-8, -7, -6, -5, -4, -3, -2, -1, 1, 2, 3, 4, 5, 6, 7, 8])
+# solve: the minimisers of scipy.optimize take trial steps of absolute size 1 (Powell's line search bracket, the initial
+# simplex of Nelder-Mead), i.e. 10^-k Burgers vectors - GammaSurface wraps a fractional coordinate by subtracting 1 in a
+# loop, so that cells of numerically small size make one energy evaluation take hours (speed is not part of the property)
+_lk_solve = st.sampled_from([0] * 4 + [-1, 1, 2, 2])
 
 
-def box_vects(bx):
-    """row-vector matrix of a box description (identity for None)"""
+def pow10(k):
+    """10^k as the correctly rounded decimal literal (exactly 1.0 for k = 0 / None)"""
+    return float('1e%d' % int(k or 0))
+
+
+def int_scale(k):
+    """length-scale exponent for a case that hands over whole numbers integer-typed: whole numbers of the scaled
+    quantities exist only for 10^k >= 1.  Odd negative exponents are mirrored; the even ones (among them -10, metres)
+    stay: the integer forms then degrade to float arrays for the scaled quantities (fractional coordinates stay whole)"""
+    return min(4, -k) if (k < 0 and k % 2) else k
+
+
+def box_vects(bx, scale=1.0):
+    """row-vector matrix of a box description (identity for None: Cartesian shift vectors carry the length scale
+    themselves), edge lengths multiplied by scale"""
     if bx is None:
         return np.eye(3)
-    lx, ly, lz, xy, xz, yz = gens.abc_to_lammps(*bx['abc'])
+    a, b, c, al, be, ga = bx['abc']
+    lx, ly, lz, xy, xz, yz = gens.abc_to_lammps(a * scale, b * scale, c * scale, al, be, ga)
     V = np.array([[lx, 0.0, 0.0], [xy, ly, 0.0], [xz, yz, lz]])
     if bx.get('rot'):
         V = V @ gens.rotation_matrix(*bx['rot']).T
@@ -111,7 +139,8 @@ def surfaces(draw, small=False):
     E = table(draw(_seed), n1, n2, knd, sc)
     D = table(draw(_seed), n1, n2, 'fourier', 0.3) if draw(_bool) else None
     return {'box': bx, 'a1vect': a1v, 'a2vect': a2v, 'a1v3': a1, 'a2v3': a2, 'n1': n1, 'n2': n2,
-            'dup': draw(_bool), 'shuffle': draw(_seed) if draw(_bool) else None, 'kind': knd, 'E': E, 'D': D}
+            'dup': draw(_bool), 'shuffle': draw(_seed) if draw(_bool) else None, 'kind': knd, 'E': E, 'D': D,
+            'lk': draw(_lk), 'ej': draw(_ej)}
 
 
 _coord = st.one_of(gens.nice(-3.0, 3.0, 4), gens.nice(0.0, 1.0, 4))
@@ -182,6 +211,7 @@ def coords_cases(draw):
     form = draw(_cform)
     if form == 'int':
         q = [[float(round(a)), float(round(b))] for a, b in q]
+        s = dict(s, lk=int_scale(s['lk']))            # whole-number plotting coordinates / Cartesian vectors
     # an in-plane plotting x axis p*A1 + q*A2 (None = default), alternative in-plane shift vectors (integer combinations)
     xv = None
     if draw(_bool):
@@ -198,8 +228,11 @@ def coords_cases(draw):
     xvc = [draw(_pq), draw(_pq)]
     if xvc == [0, 0]:
         xvc = [1, -1]
+    hist = draw(query_history())
+    if form == 'int' and hist and hist['surf2']:
+        hist['surf2'] = dict(hist['surf2'], lk=int_scale(hist['surf2']['lk']))
     return {'surf': s, 'q': q, 'scalar': draw(_bool), 'aslist': draw(_bool), 'xv': xv, 'alt': alt,
-            'smooth': draw(_bool), 'hist': draw(query_history()), 'form': form, 'xvc': xvc,
+            'smooth': draw(_bool), 'hist': hist, 'form': form, 'xvc': xvc,
             # whole-number alternative crystal vectors are handed over integer-typed ([1, 1, 0] as one types them)
             'altint': draw(_bool)}
 
@@ -257,7 +290,8 @@ def pn_systems(draw, nmax=401, real_ok=True):
     g = {'a1len': b if along_b else draw(_len), 'a1ang': phi if along_b else draw(_phi), 'a2len': l2,
          'a2rel': round(math.degrees(th), 2), 'n1': draw(_n_small), 'n2': draw(_n_small), 'dup': draw(_bool),
          'Eseed': draw(_seed), 'scale': draw(st.sampled_from([0.05, 0.02, 0.1]))}
-    return {'frame': frame, 'rotf': rotf, 'T': T, 'K': Kd, 'b': b, 'phi': phi, 'gamma': g}
+    return {'frame': frame, 'rotf': rotf, 'T': T, 'K': Kd, 'b': b, 'phi': phi, 'gamma': g,
+            'lk': draw(_lk), 'ej': draw(_ej)}
 
 
 # form in which x / the disregistry are handed to the SDVPN object (arguments, keywords, setters, solve): float ndarray,
@@ -294,13 +328,29 @@ def pn_settings(draw):
             'tbform': draw(st.sampled_from(['arr', 'arr', 'list', 'tuple', 'ro', 'strided']))}
 
 
+_INTFORMS = ('int', 'intlist')
+
+
+def _uses_int(pr):
+    return pr['fx'] in _INTFORMS or pr['fd'] in _INTFORMS
+
+
+def fix_int_scale(c):
+    """whole-angstrom grids / disregistries handed over integer-typed need a length scale 10^k >= 1"""
+    h = c.get('hist')
+    steps = h if isinstance(h, list) else ([h] if h else [])
+    if any(_uses_int(p) for p in [c['prof']] + [t['prof'] for t in steps]):
+        c['sys']['lk'] = int_scale(c['sys']['lk'])
+    return c
+
+
 @st.composite
 def pn_cases(draw, nmax=401):
-    return {'sys': draw(pn_systems()), 'prof': draw(pn_profiles(nmax=nmax)), 'set': draw(pn_settings()),
-            'shiftc': [draw(gens.nice(-10.0, 10.0, 3)), draw(gens.nice(-10.0, 10.0, 3))],
-            's': draw(st.sampled_from([2.0, -1.0, 0.5, 3.0])),
-            # lists / tuples go to the energy methods as ARGUMENTS in these cases only (everywhere through the setters)
-            'listargs': draw(st.integers(0, 4)) == 0}
+    return fix_int_scale({'sys': draw(pn_systems()), 'prof': draw(pn_profiles(nmax=nmax)), 'set': draw(pn_settings()),
+                          'shiftc': [draw(gens.nice(-10.0, 10.0, 3)), draw(gens.nice(-10.0, 10.0, 3))],
+                          's': draw(st.sampled_from([2.0, -1.0, 0.5, 3.0])),
+                          # lists / tuples go to the energy methods as ARGUMENTS in these cases only (everywhere through the setters)
+                          'listargs': draw(st.integers(0, 4)) == 0})
 
 
 # ---- object history of an SDVPN: further evaluations on the same object
@@ -336,7 +386,7 @@ def pn_hist_cases(draw):
     """pn_cases plus, for half of them, 1-3 further evaluations on the same SDVPN object"""
     c = draw(pn_cases())
     c['hist'] = draw(pn_steps(200)) if draw(_bool) else []
-    return c
+    return fix_int_scale(c)
 
 
 _method = st.sampled_from(['Powell', 'Powell', 'Powell', 'Nelder-Mead', 'L-BFGS-B'])
@@ -390,7 +440,12 @@ def solve_cases(draw):
     if draw(st.integers(0, 2)) > 0:
         c['hist'] = {'grid': draw(_pre_grid), 'prof': draw(_profiles(21)), 'stored_first': draw(st.integers(0, 2)) > 0,
                      'post': draw(_bool), 'settings_via': draw(st.sampled_from(['ctor', 'setters', 'solve_kw']))}
-    return c
+    c['sys']['lk'] = draw(_lk_solve)
+    if se['cdiffelastic']:
+        # the elastic kernel carries ln(|i-j| dx): with central differences the sum of the densities is not fixed by the
+        # end rows and for a spacing > 1 (scaled-up lengths) the term -ln(dx) K (sum rho dx)^2 is unbounded below
+        c['sys']['lk'] = min(c['sys']['lk'], 0)
+    return fix_int_scale(c)
 
 
 @st.composite
@@ -402,7 +457,7 @@ def halfwidth_cases(draw):
     return {'b': b, 'char': char, 'Kbb': K, 'Kother': [draw(_eig), draw(_eig)], 'xi_over_b': xi_over_b,
             'kstep': draw(st.integers(10, 12)), 'n1': draw(st.integers(10, 15)), 'n2': draw(st.integers(4, 6)),
             'c': draw(_len), 'frame': draw(st.sampled_from([['x', 'y'], ['z', 'x'], ['y', 'z']])),
-            'cdiffelastic': draw(_bool)}
+            'cdiffelastic': draw(_bool), 'lk': draw(_lk), 'ej': draw(_ej)}
 
 
 _xmode = st.sampled_from(['x', 'xmax+xstep', 'xmax+xnum', 'xstep+xnum', 'all3'])
@@ -418,4 +473,4 @@ def arctan_cases(draw):
         bv = [1.0, 0.0, 0.0]
     return {'n': n, 'step': step, 'xmode': draw(_xmode), 'x0': draw(gens.nice(-5.0, 5.0, 2)),
             'bkind': bk, 'b': bv, 'bmag': draw(_b), 'center': draw(st.one_of(st.just(0.0), gens.nice(-3.0, 3.0, 2))),
-            'w': draw(_w), 'normalize': draw(_bool), 'shift': draw(_bool), 'aslist': draw(_bool)}
+            'w': draw(_w), 'normalize': draw(_bool), 'shift': draw(_bool), 'aslist': draw(_bool), 'lk': draw(_lk)}
